@@ -209,9 +209,11 @@ package datastore
 //@   loop 1 invariant updates_after_starts_unhandled: midCycle(old(ntrace()), dm)
 //@   loop 1 invariant unhandled_only_without_intents [C15]: len(callres(Read)) == 0
 //@   loop 2 invariant updates_after_starts_not_applied: midCycle(old(ntrace()), dm)
-//@   loop 2 invariant not_applied_only_when_running_differs [C15]: len(callres(Read)) > 0 && !callres(EqualTypedValues, 0)
+//@   loop 2 invariant not_applied_only_when_running_differs [C15]: len(callres(Read)) > 0 && !callres(EqualTypedValues, 0) &&
+//@            callarg(EqualTypedValues, 0, 0) == callres(TypedValueToYANGType, 0, 0) && callarg(EqualTypedValues, 0, 1) == callres(Value, 0, 0)
 //@   loop 3 invariant updates_after_starts_lower_intents: midCycle(old(ntrace()), dm)
-//@   loop 4 invariant overruled_only_when_values_differ [C15]: !callres(EqualTypedValues, 1)
+//@   loop 4 invariant overruled_only_when_values_differ [C15]: !callres(EqualTypedValues, 1) &&
+//@            callarg(EqualTypedValues, 1, 0) == callres(TypedValueToYANGType, 0, 0) && callarg(EqualTypedValues, 1, 1) == callres(TypedValueToYANGType, 1, 0)
 //@   loop 4 invariant updates_after_starts_overruled: midCycle(old(ntrace()), dm) && $n_loop3 >= 0 && $n_loop3 < $len_loop3
 //@   loop 5 invariant updates_after_starts_missing: midCycle(old(ntrace()), dm)
 //@   loop 6 invariant updates_after_starts_missing_intents: midCycle(old(ntrace()), dm)
